@@ -620,9 +620,24 @@ def check_effect(acc, case) -> list[dict]:
     a = shift_lines(d1.pformat(), k)
     b = shift_lines(d2.pformat(), k_gl)
     if a != b:
+        # a line number that is the same in both spellings *before* shifting was computed relative to a directive
+        # (docutils' parsed-literal: content offset + 1), not to the file: whether it is true is C04's subject, and it
+        # says nothing about where the configuration came from
+        ra, rb = d1.pformat().splitlines(), d2.pformat().splitlines()
+        if len(ra) == len(rb) and all(shift_lines(x, k) == shift_lines(y, k_gl) or (x == y and ' line="' in x)
+                                      for x, y in zip(ra, rb)):
+            a = b
+            if acc is not None:
+                acc.classes["directive-relative-line-ignored"] += 1
+    if a != b:
         i = next((j for j in range(min(len(a), len(b))) if a[j] != b[j]), min(len(a), len(b)))
         vs.append(mk(f"C13:front-matter-differs-from-global:{field}", case, b[max(0, i - 150):i + 250], a[max(0, i - 150):i + 250]))
     wa, wb = shift_warnings(w1, k), shift_warnings(w2, k_gl)
+    if wa != wb and k != k_gl:
+        # same rule for the log lines of such a directive-relative system message
+        r1, r2 = front.warning_lines(w1), front.warning_lines(w2)
+        if len(r1) == len(r2) and all(p == q or x == y for p, q, x, y in zip(wa, wb, r1, r2)):
+            wa = wb
     if wa != wb:
         vs.append(mk(f"C13:front-matter-warnings-differ-from-global:{field}", case, wb[:8], wa[:8]))
     if acc is not None:
